@@ -443,6 +443,9 @@ func (e *dispEnv) runMsg(runner, name string, t int32, count int64, kind string)
 	}
 	post := e.storeDump(disptypes.DistributionStatus_DISTRIBUTION_STATUS_PENDING, false)
 	e.out.Emit(fmt.Sprintf("chk c11.run tag=disp.run.paid-by-runner-in-full %s %s %s %d %d pre=%s post=%s deltas=%s", strings.Join(dispDenoms, ","), runner, name, t, count, pre, post, ds), "true", fmt.Sprintf("chk.run.paid%d", minInt(npaid, 3)), false)
+	// nothing is silently dropped: whatever left pending was paid in full or is in the failed store
+	e.out.Emit(fmt.Sprintf("chk c11.leavers tag=disp.run.leaver-paid-or-failed %s pre=%s post=%s postfailed=%s deltas=%s", strings.Join(dispDenoms, ","), pre, post,
+		e.storeDump(disptypes.DistributionStatus_DISTRIBUTION_STATUS_FAILED, false), ds), "true", "chk.leavers", false)
 	// claims: one per (user,type); the claims of records completed by this run are gone
 	var newly []string
 	for _, r := range e.app.DispensationKeeper.GetRecords(e.ctx).DistributionRecords {
@@ -522,6 +525,70 @@ func (e *dispEnv) directedMerge(rng *Rng) {
 	e.after()
 }
 
+// directed history (seeded change C11-3 and the colliding-completed-record semantics): ONE block,
+// one distributor and type: create (runner A) → run by A (full or partial) → recipients re-file
+// claims → create (runner B != A, overlapping recipients) → run by B → run by B again.
+// A recipient paid by the first run has a COMPLETED record under the same key name_type_recipient
+// when its second PENDING record is created; the unchanged code pays the second record in full and
+// overwrites the completed record under that key (the store keeps one completed record per key;
+// the payments are 2).
+func (e *dispEnv) directedTwoRunners(rng *Rng) {
+	D, A, B := e.users[0].String(), e.users[1].String(), e.users[2].String()
+	t := int32(2 + rng.Intn(2)) // claim-type records
+	rs := []string{e.users[3].String(), e.users[4].String(), e.users[5].String(), e.rcpts[len(e.rcpts)-1]}
+	name := fmt.Sprintf("%d_%s", e.height, D)
+	mk := func(runner string, idx []int) {
+		var outs []banktypes.Output
+		var toks []string
+		for _, i := range idx {
+			c := e.genCoins(rng, false)
+			outs = append(outs, banktypes.Output{Address: rs[i], Coins: c})
+			toks = append(toks, rs[i], coinsStr(c))
+		}
+		msg := disptypes.MsgCreateDistribution{Distributor: D, AuthorizedRunner: runner, DistributionType: disptypes.DistributionType(t), Output: outs}
+		res := e.deliver(msg.ValidateBasic, func(ctx sdk.Context) error {
+			_, err := e.srv.CreateDistribution(sdk.WrapSDKContext(ctx), &msg)
+			return err
+		})
+		if res == "ok" {
+			e.names = append(e.names, name)
+			for _, o := range outs {
+				k := fmt.Sprintf("%s|%d|%s", name, t, o.Address)
+				e.created[k] = e.created[k].Add(o.Coins...)
+			}
+		}
+		e.out.Emit(fmt.Sprintf("d.create %s %s %d %s", D, runner, t, strings.Join(toks, " ")), res, "directed2.create."+res, true)
+		e.after()
+	}
+	claim := func(i int) {
+		msg := disptypes.MsgCreateUserClaim{UserClaimAddress: rs[i], UserClaimType: disptypes.DistributionType(t)}
+		res := e.deliver(msg.ValidateBasic, func(ctx sdk.Context) error {
+			_, err := e.srv.CreateUserClaim(sdk.WrapSDKContext(ctx), &msg)
+			return err
+		})
+		e.out.Emit(fmt.Sprintf("d.claim %s %d", rs[i], t), res, "directed2.claim."+res, res == "ok")
+		e.after()
+	}
+	claim(0)
+	claim(1)
+	mk(A, []int{0, 1, 2, 3})
+	cnt := int64(20)
+	if rng.Bool() {
+		cnt = int64(1 + rng.Intn(3)) // partial first run
+	}
+	e.runMsg(A, name, t, cnt, "directed2.first")
+	e.after()
+	claim(0) // re-filed after being paid
+	claim(1)
+	mk(B, []int{0, 1, 1, 3})
+	e.runMsg(A, name, t, 20, "directed2.oldrunner")
+	e.after()
+	e.runMsg(B, name, t, int64(1+rng.Intn(2)), "directed2.second.partial")
+	e.after()
+	e.runMsg(B, name, t, 20, "directed2.second.rest")
+	e.after()
+}
+
 func init() {
 	families["disp"] = func(rng *Rng, n int, out *Out, replay string) {
 		ops := 0
@@ -535,6 +602,9 @@ func init() {
 			if ops == 0 || rng.Chance(1, 10) {
 				e.directedMerge(rng)
 				ops += 6
+			} else if ops < 60 || rng.Chance(1, 6) {
+				e.directedTwoRunners(rng)
+				ops += 11
 			}
 			L := 20 + rng.Intn(40)
 			for i := 0; i < L && ops < n; i++ {
